@@ -166,6 +166,7 @@ package crypto
 //@ func initBLS12381 mode int props C01 C16 C17
 //@ assigns everything
 //@ ensures [identity-key-is-flagged] g2PublicKey.isIdentity && e2IsInf(g2PublicKey.point)
+//@ ensures [identity-signature-constant] len(g1Serialization) == 48
 
 //@ cfunc types_sanity nobody
 //@ assigns nothing
@@ -1468,3 +1469,33 @@ package crypto
 //@ loop 2 invariant [timeouts-were-set] old(s.fvss[0].sharesTimeout) && old(s.fvss[0].complaintsTimeout) && s.fvss[i].sharesTimeout && s.fvss[i].complaintsTimeout
 //@ loop 2 assigns nothing
 //@ loop 3 invariant len(y) == s.size && len(jointy) == s.size && fresh(y) && !s.jointRunning && jfKept(s)
+
+// ---- batch verification, Go skeleton (C19 frames, C09; the verdicts themselves are the C layer's: assumed)
+//@ global len(g1Serialization) == 48
+//@ cfunc bls_batch_verify nobody
+//@ requires sigs_len >= 1 && valid(results, sigs_len) && valid(pks_input, sigs_len) && valid(sigs_bytes, 48*sigs_len) && data_len >= 0 && valid(data, data_len) && valid(seed, 16*sigs_len)
+//@ assigns results[0:sigs_len]
+
+// (facts about package variables that only initBLS12381 writes: established by its contract above)
+//@ global g2PublicKey.isIdentity && e2IsInf(g2PublicKey.point)
+//@ func IdentityBLSPublicKey mode int props C01 C16 C17 C19 C09
+//@ assigns nothing
+//@ ensures [the-identity-key-is-flagged] typeis(result, *pubKeyBLSBLS12381) && unbox(result, *pubKeyBLSBLS12381) != nil && unbox(result, *pubKeyBLSBLS12381).isIdentity && pkWF(unbox(result, *pubKeyBLSBLS12381))
+
+//@ func BatchVerifyBLSSignaturesOneMessage$1 mode int props C19 C09
+//@ assigns nothing
+
+//@ func BatchVerifyBLSSignaturesOneMessage mode int props C19 C09
+//@ requires noTypedNilKeys(pks)
+//@ assigns ghost(kmac)
+//@ ensures [one-verdict-per-signature] len(result0) == len(sigs) && fresh(result0)
+//@ ensures [on-error-every-verdict-is-false] result1 != nil ==> forall(k, 0, len(sigs), !result0[k])
+//@ ensures [empty-list] len(pks) == 0 ==> iserr(result1, errBLSAggregateEmptyList)
+//@ ensures [length-mismatch] len(pks) != 0 && len(pks) != len(sigs) ==> iserr(result1, *invalidInputsError)
+//@ ensures [wrong-length-signature-or-identity-key-is-false] result1 == nil ==> forall(k, 0, len(sigs), (len(sigs[k]) != 48 || unbox(pks[k], *pubKeyBLSBLS12381).isIdentity) ==> !result0[k])
+//@ loop 1 invariant 0 <= i && i <= len(pks) && len(pks) == len(sigs) && len(flatSigs) == 48*i && len(pkPoints) == i && len(returnBool) == len(sigs) && fresh(returnBool) && len(falseSlice) == len(sigs) && fresh(falseSlice) && obj(returnBool) != obj(falseSlice)
+//@ loop 1 invariant forall(k, 0, len(sigs), !falseSlice[k])
+//@ loop 1 invariant forall(k, 0, i, typeis(pks[k], *pubKeyBLSBLS12381) && ((len(sigs[k]) != 48 || unbox(pks[k], *pubKeyBLSBLS12381).isIdentity) ==> !returnBool[k]))
+//@ loop 2 invariant 0 <= i && i <= len(verifInt) && len(verifInt) == len(sigs) && len(returnBool) == len(sigs) && fresh(returnBool) && len(falseSlice) == len(sigs) && fresh(falseSlice) && obj(returnBool) != obj(falseSlice)
+//@ loop 2 invariant forall(k, 0, len(sigs), !falseSlice[k])
+//@ loop 2 invariant forall(k, 0, len(sigs), typeis(pks[k], *pubKeyBLSBLS12381) && ((len(sigs[k]) != 48 || unbox(pks[k], *pubKeyBLSBLS12381).isIdentity) ==> !returnBool[k]))
